@@ -28,6 +28,11 @@ pub fn int_spelling_texts(t: IntTy) -> Vec<(String, String, String)> {
         ("lit-exp-for-int", "1e2".into(), "100".into()),
         ("lit-plus", "+5".into(), "5".into()),
         ("lit-out-of-range", "99999999999999999999999999999999999999999".into(), "0".into()),
+        ("lit-type-max", format!("{}", if t == IntTy::U128 { "340282366920938463463374607431768211455".to_string() } else { t.max_v().to_string() }), format!("{n}::MAX")),
+        ("lit-type-max-underscored", format!("{}_", if t == IntTy::U128 { "340282366920938463463374607431768211455".to_string() } else { t.max_v().to_string() }), format!("{n}::MAX")),
+        ("lit-type-min", t.min_v().to_string(), format!("{n}::MIN")),
+        ("lit-type-max-minus-one", format!("{}", if t == IntTy::U128 { "340282366920938463463374607431768211454".to_string() } else { (t.max_v() - 1).to_string() }), format!("{n}::MAX - 1")),
+        ("lit-type-min-plus-one", (t.min_v() + 1).to_string(), format!("{n}::MIN + 1")),
         ("const", "KA".into(), "KA".into()),
         ("mod-const", "k::KM".into(), "k::KM".into()),
         ("paren", "(KA)".into(), "(KA)".into()),
@@ -92,6 +97,10 @@ pub fn float_spelling_texts(ty: &str) -> Vec<(String, String, String)> {
         ("lit-rounding", "16777217".into(), "16777217.0".into()),
         ("lit-subnormal", "1e-310".into(), "1e-310".into()),
         ("lit-overflowing", "1e400".into(), format!("{ty}::INFINITY")),
+        ("lit-type-max", if ty == "f32" { "3.4028235e38".to_string() } else { "1.7976931348623157e308".to_string() }, format!("{ty}::MAX")),
+        ("lit-type-max-decimal", if ty == "f32" { "340282350000000000000000000000000000000.0".to_string() } else { "1.7976931348623157e308".to_string() }, format!("{ty}::MAX")),
+        ("lit-type-min", if ty == "f32" { "-3.4028235e38".to_string() } else { "-1.7976931348623157e308".to_string() }, format!("{ty}::MIN")),
+        ("lit-min-positive", if ty == "f32" { "1.17549435e-38".to_string() } else { "2.2250738585072014e-308".to_string() }, format!("{ty}::MIN_POSITIVE")),
         ("lit-leading-arith", "5.0 + 3.0".into(), "5.0 + 3.0".into()),
         ("lit-leading-mul", "2.0 * KA".into(), "2.0 * KA".into()),
         ("const", "KA".into(), "KA".into()),
